@@ -4,6 +4,7 @@ case arithmetic) is byte-level runtime data and is NOT decided."""
 from __future__ import annotations
 
 import ast
+import re
 
 from tiv.astutil import body_walk, call_name, dotted, enclosing_stmt, norm, short, stores_in, walk_local
 from tiv.match import find_stmts, match_expr, match_stmt
@@ -53,6 +54,8 @@ def _psub(e):
 
 
 def run(ck, m):
+    from rules.common import rule_memo_safety
+    rule_memo_safety(ck, m, "MEMO", "C17")          # first: a memoised helper also hides the code it wraps from the rules below
     rd = m.get(UW, "UrwidImage.render")
     rw = m.get(UW, "UrwidImage.rows")
     # ---- R1 ----------------------------------------------------------------------------
@@ -61,6 +64,10 @@ def run(ck, m):
     FLOW, FIT = "len(size) == 1", "self._ti_sizing is Size.FIT"
     sets = [c for c in body_walk(rd) if isinstance(c, ast.Call) and isinstance(c.func, ast.Attribute) and c.func.attr == "set_size" and {FLOW, FIT} <= _ec(rd, c)]
     stores_ = [st for t, st in stores_in(ast.Module(body=rd.body, type_ignores=[])) if isinstance(t, ast.Attribute) and t.attr == "_size" and isinstance(st, ast.Assign) and {FLOW, f"not {FIT}"} <= _ec(rd, st)]
+    for n_ in sets + stores_:
+        extra_c = {c_ for c_ in _ec(rd, n_) if c_ not in (FLOW, FIT, f"not {FIT}") and not c_.startswith("not len(size) == 2")}
+        ck.ob("R1", enclosing_stmt(n_) if isinstance(n_, ast.Call) else n_, not extra_c, f"render() sets the image size only under {sorted(extra_c)}: the size lives on the (shareable) image object and depends on the "
+              "cell ratio, so it must be set on every flow render - otherwise the canvas claims a size the held render does not have", stmt="render[flow]: image size set unconditionally")
     ck.expect(len(sets) == 1 and len(stores_) == 1, f"UrwidImage.render: flow FIT `set_size(..)` / AUTO `<image>._size = ..` not recognised ({len(sets)}, {len(stores_)})")
     rret = [r for r in body_walk(rw) if isinstance(r, ast.Return) and r.value is not None]
     ck.expect(len(rret) >= 1, "UrwidImage.rows: return not found")
@@ -177,6 +184,19 @@ def run(ck, m):
             except NotPoly:
                 ok = False
             ck.ob("R3", enclosing_stmt(c), ok, f"content: {kind} padding, {what}; found near=`{norm(gn)[:50]}`, far=`{norm(gf)[:50]}`", stmt=f"content: {kind} split [{sorted(facts.items())}]")
+    # axis agreement: whatever is compared with / sliced by a vertical trim uses image_size[1], a horizontal one image_size[0]
+    n_axis = 0
+    for n_ in body_walk(ct):
+        if not isinstance(n_, ast.Compare):
+            continue
+        t_ = norm(trace(ct, n_, keep=("size", "image_size")))
+        axes_img = set(re.findall(r"(?<![\w.])image_size\[(\d)\]", t_))
+        axes_trim = set(re.findall(r"_ti_calc_trim\(size\[(\d)\]", t_))
+        if axes_trim and axes_img and len(axes_trim) == 1:
+            n_axis += 1
+            ck.ob("R3", enclosing_stmt(n_), axes_img == axes_trim, f"`{short(n_, 60)}` relates image_size[{'/'.join(sorted(axes_img))}] to the trim amounts of axis {'/'.join(sorted(axes_trim))}: "
+                  "the image dimension and the trims compared with it must belong to the same axis", stmt=f"content: axis agreement #{n_axis}")
+    ck.expect(n_axis >= 3, f"content: expected >= 3 comparisons of an image dimension with trim amounts, found {n_axis}")
     from rules.c05 import rule_format_render
     rule_format_render(ck, m, "R3")
 
@@ -189,8 +209,6 @@ def run(ck, m):
     c02.run(sc2, m)
     ck.expect(sc2.kept >= 8, f"expected the block renderer's emission table (C02.R3) to be evaluated, got {sc2.kept} obligations")
 
-    from rules.common import rule_memo_safety
-    rule_memo_safety(ck, m, "MEMO", "C17")
 
 
 MUTANTS = [
